@@ -5,6 +5,7 @@ import (
 	"errors"
 	"fmt"
 	"github.com/syndtr/goleveldb/leveldb"
+	"sync"
 
 	"github.com/lidofinance/dc4bc/client/api/dto"
 	"github.com/lidofinance/dc4bc/client/modules/state"
@@ -27,6 +28,9 @@ type FSMService interface {
 }
 
 type FSM struct {
+	// saveMu serialises the read-modify-write of the blob that holds the
+	// dumps of all rounds: the poller and the local API save rounds concurrently
+	saveMu   sync.Mutex
 	state    state.State
 	storage  storage.Storage
 	stateKey string
@@ -79,6 +83,9 @@ func (fsm *FSM) loadFSM(dkgRoundID string) (*state_machines.FSMInstance, bool, e
 }
 
 func (fsm *FSM) SaveFSM(dkgRoundID string, dump []byte) error {
+	fsm.saveMu.Lock()
+	defer fsm.saveMu.Unlock()
+
 	fsmInstances, err := fsm.getAllFSMData()
 	if err != nil {
 		return fmt.Errorf("failed to get fsm instances: %w", err)
